@@ -495,6 +495,35 @@ func run(c *engine.Ctx) {
 			}
 		}
 
+		// thorough: every interleaving of the lock-delimited blocks, without any preemption bound
+		if !c.Quick() {
+			sc := &scen{def: def, cache: map[string]bool{}, outc: map[string]int64{}}
+			ex := &sched.Explorer{Scenario: sc, Bound: -1, SyncOnly: true, Stop: c.Expired, Shard: c.Shard, NShards: c.NShards}
+			ex.Explore()
+
+			c.Count(def.Name+"_schedules_unbounded_sync_points_only", ex.Stats.Executions)
+			c.Traces(ex.Stats.Executions)
+			c.Eval(ex.Stats.Executions)
+			c.Transitions(ex.Stats.Points)
+			c.States(int64(len(sc.cache)))
+
+			if !ex.Stats.Complete {
+				c.NotExhaustive("unbounded sync-point exploration of " + def.Name + " cut by the deadline")
+			}
+
+			seen := map[string]bool{}
+
+			for _, f := range ex.Failures {
+				if f.Choices == nil || seen[f.Sig] {
+					continue
+				}
+
+				seen[f.Sig] = true
+				c.Violation(f.Sig, "unbounded exploration at synchronisation points: "+f.Summary,
+					&replayCase{Scenario: def.Name, Choices: f.Choices, Schedule: f.Schedule})
+			}
+		}
+
 		if c.WantSample() && c.Shard == 0 {
 			c.Sample(map[string]any{"scenario": def})
 		}
